@@ -14,8 +14,8 @@
    Every theorem below quantifies over ALL well-formed types (induction over the type syntax where
    the trait recurses through arrays / cv), not over the finite zoo the compile-time tie samples. *)
 From Coq Require Import NArith.
-From Tetl Require Import Lib.Base C15.Types C15.Model C15.ModelNum C15.Spec C15.SpecNum C15.ProofsTypes
-  C15.ProofsCv C15.ProofsCat C15.ProofsTrans C15.ProofsSummary C15.ProofsLimits C15.ProofsWf.
+From Tetl Require Import Lib.Base C15.Types C15.Model C15.ModelNum C15.ModelComp C15.Spec C15.SpecNum C15.ProofsTypes
+  C15.ProofsCv C15.ProofsCat C15.ProofsTrans C15.ProofsSummary C15.ProofsLimits C15.ProofsWf C15.ProofsLaws C15.ProofsComp.
 Local Open Scope Z_scope.
 
 (* [meta.unary.cat]: the 14 primary category traits, both compiler configurations *)
@@ -93,6 +93,47 @@ Print Assumptions C15_cv_preserves_wf.
 Theorem C15_transformations_preserve_wf : forall k t, wf t = true -> transformations_preserve_wf k t.
 Proof. exact transformations_wf. Qed.
 Print Assumptions C15_transformations_preserve_wf.
+
+(* laws between the traits: idempotence of remove_cv / decay / remove_cvref, reference collapsing of
+   add_lvalue_reference / add_rvalue_reference, remove_reference and remove_pointer undo
+   add_lvalue_reference and add_pointer, add_const / add_volatile qualify everything except references
+   and functions, rank / extent recurse through remove_extent *)
+Theorem C15_trait_laws : forall t, wf t = true -> trait_laws t.
+Proof. exact laws. Qed.
+Print Assumptions C15_trait_laws.
+
+(* the composition traits is_default/copy/move_constructible, is_copy/move_assignable — and, with the
+   nothrow / trivially intrinsics for ctor and asg, their is_nothrow_* / is_trivially_* versions — pass
+   exactly the standard's argument types (const T&, T&&, T&; reference collapsing, cv on references and
+   functions ignored) to the intrinsic, and are false for non-referenceable T.  [ctor], [asg] are ANY
+   intrinsics that are false on non-referenceable types (cv void, qualified function types). *)
+Theorem C15_composition_traits : forall (ctor : cty -> list cty -> bool) (asg : cty -> cty -> bool),
+  (forall t args, referenceable t = false -> ctor t args = false) ->
+  (forall t u, referenceable t = false -> asg t u = false) ->
+  forall t, wf t = true ->
+    is_default_constructible_m ctor t = std_is_default_constructible ctor t
+    /\ is_copy_constructible_m ctor t = std_is_copy_constructible ctor t
+    /\ is_move_constructible_m ctor t = std_is_move_constructible ctor t
+    /\ is_copy_assignable_m asg t = std_is_copy_assignable asg t
+    /\ is_move_assignable_m asg t = std_is_move_assignable asg t.
+Proof. exact composition_traits. Qed.
+Print Assumptions C15_composition_traits.
+
+(* is_destructible (library SFINAE with the void / function / unbounded-array / reference / scalar
+   short-cuts and remove_all_extents) and is_nothrow_destructible (partial specialisations for T[N],
+   T&, T&&; induction over the array nesting) are [meta.unary.prop], for every compiler whose
+   pseudo-destructor call on a scalar is well-formed; [dtor_ok u] = "declval<U&>().~U() is well-formed",
+   [dtor_noexcept t] = "noexcept(declval<T>().~T())" *)
+Theorem C15_destructible : forall (dtor_ok dtor_noexcept : cty -> bool),
+  (forall u, std_is_scalar u = true -> dtor_ok u = true) ->
+  forall k t, wf t = true ->
+    is_destructible_m dtor_ok k t = std_is_destructible dtor_ok t
+    /\ is_nothrow_destructible_m dtor_ok dtor_noexcept k t = std_is_nothrow_destructible dtor_ok dtor_noexcept t.
+Proof.
+  intros dtor_ok dtor_noexcept Hs k t H; split;
+    [exact (is_destructible_m_spec dtor_ok Hs k t H) | exact (is_nothrow_destructible_m_spec dtor_ok dtor_noexcept Hs k t H)].
+Qed.
+Print Assumptions C15_destructible.
 
 (* smallest_size_t<N> (etl extension) for every 64-bit N: the chosen type holds N, and the next
    smaller unsigned type could not hold N + 1 *)
